@@ -338,6 +338,27 @@ Definition no_args (args : list (list piece)) (prm : params) (k : leaf) : chunk 
   | _ => CError (LIT "unexpected arguments")
   end.
 
+(* fn literal_arg (fixes c13258d, d5a5dce): the text pieces of an argument joined - an escaped character
+   is a piece of its own -, or the message of the error to report: the first piece that is not text
+   decides (an error piece: its message; a formatter: `what`); an empty argument is `what` *)
+Fixpoint literal_pieces (what : str) (arg : list piece) : str + str :=
+  match arg with
+  | [] => inl []
+  | PText t :: r =>
+    match literal_pieces what r with
+    | inl u => inl (t ++ u)
+    | inr e => inr e
+    end
+  | PError e :: _ => inr e
+  | PArg _ _ _ :: _ => inr what
+  end.
+
+Definition literal_arg (what : str) (arg : list piece) : str + str :=
+  match arg with
+  | [] => inr what
+  | _ :: _ => literal_pieces what arg
+  end.
+
 Section Compile.
   Variable strftime_ok : str -> bool.
 
@@ -348,24 +369,14 @@ Section Compile.
     then CError ((LIT "invalid date format `") ++ fmt ++ (LIT "`")) else
     match nth_error args 1 with
     | Some arg =>
-      match arg with
-      | PText z :: _ =>
+      match literal_arg (LIT "invalid timezone") arg with
+      | inl z =>
         if str_eqb z (LIT "utc") then CLeaf (KTime fmt Utc) prm
         else if str_eqb z (LIT "local") then CLeaf (KTime fmt Local) prm
         else CError ((LIT "invalid timezone `") ++ z ++ (LIT "`"))
-      | _ :: _ => CError (LIT "invalid timezone")
-      | [] => CError (LIT "invalid timezone")
+      | inr _ => CError (LIT "invalid timezone")
       end
     | None => CLeaf (KTime fmt Local) prm
-    end.
-
-  (* key / default of X: the FIRST piece of the argument only *)
-  Definition mdc_arg (what : str) (arg : list piece) : str + str :=
-    match arg with
-    | PText t :: _ => inl t
-    | PError e :: _ => inr e
-    | PArg _ _ _ :: _ => inr what
-    | [] => inr what
     end.
 
   Definition compile_mdc (args : list (list piece)) (prm : params) : chunk :=
@@ -373,12 +384,12 @@ Section Compile.
     match args with
     | [] => CError (LIT "missing MDC key")
     | a :: _ =>
-      match mdc_arg (LIT "invalid MDC key") a with
+      match literal_arg (LIT "invalid MDC key") a with
       | inr e => CError e
       | inl key =>
         match nth_error args 1 with
         | Some b =>
-          match mdc_arg (LIT "invalid MDC default") b with
+          match literal_arg (LIT "invalid MDC default") b with
           | inr e => CError e
           | inl dflt => CLeaf (KMdc key dflt) prm
           end
